@@ -355,7 +355,7 @@ def rule_lean(form_line):
     return "{ " + ", ".join(fields) + ", ops := [" + ", ".join(ops) + "] }"
 
 
-VEX_REG_CLASSES = {"rvm": (0x72, 0x75), "rm": (0x68, 0x6B), "rvmi": (0x7A, 0x7C), "rmi": (0x6F, 0x71),
+VEX_REG_CLASSES = {"rvm": (0x72, 0x75, 0x73, 0x76), "rm": (0x68, 0x6B, 0x83, 0x84), "rvmi": (0x7A, 0x7C, 0x7B, 0x7D), "rmi": (0x6F, 0x71),
                    # legacy space: ExtRm, ExtRm_P, X86Rm, X86Rm_NoSize ([reg, rm]); X86Mr, X86Mr_NoSize ([rm, reg]); ExtRmi, ExtRmi_P ([reg, rm, imm8])
                    "lrm": (0x4A, 0x4D, 0x14, 0x16, 0x21, 0x56, 0x2C), "lmr": (0x17, 0x18, 0x56, 0x2C), "lrmi": (0x52, 0x53), "lop": (0x01,),
                    # X86Arith, X86Test, register-register: the class emits the [rm, reg] form; 8-bit operands in both kinds (gpb, gpbhi)
@@ -371,15 +371,18 @@ VEX_REG_CLASSES = {"rvm": (0x72, 0x75), "rm": (0x68, 0x6B), "rvmi": (0x7A, 0x7C)
                    # X86Mov between general-purpose registers / memory: `mov r/m, reg` (88 / 89) and `mov reg, r/m` (8A / 8B)
                    "lmov": (0x2C,), "lmovrm": (0x2C,),
                    # VexMr_Lx, VexMri / VexMri_Lx: r/m operand first
-                   "mr": (0x62,), "mri": (0x64, 0x65),
+                   "mr": (0x62, 0x83, 0x84), "mri": (0x64, 0x65),
                    # X86Lea: `lea reg, mem` (the memory operand has no register alternative: only the register kind is listed)
                    "llea": (0x2B,),
                    # X86Jcc / X86Jmp / X86Call to a bound label: rel8 and rel32 forms
                    "lrel": (0x26, 0x28, 0x1C),
                    # X86Arith `op r16/r32/r64, imm` (81 /d iw|id, 83 /d ib)
-                   "larithimm": (0x19,), "laccimm": (0x19, 0x3D), "lrotx": (0x37,), "lm": (0x0E, 0x38), "lmovri": (0x2C,), "lmovrmi": (0x2C,), "lmovmi": (0x2C,), "larithmi": (0x19,)}
+                   "larithimm": (0x19,), "laccimm": (0x19, 0x3D), "lrotx": (0x37,), "lm": (0x0E, 0x38), "lmovri": (0x2C,), "lmovrmi": (0x2C,), "lmovmi": (0x2C,), "larithmi": (0x19,), "ltestmi": (0x3D,), "lmoff": (0x2C, 0x2D), "lmoffst": (0x2C, 0x2D), "lmovsr": (0x2C,), "lmovrs": (0x2C,)}
 SHAPE_ROLES = {"rvm": ["reg", "vvvv", "rm"], "rm": ["reg", "rm"], "rvmi": ["reg", "vvvv", "rm", "imm"], "rmi": ["reg", "rm", "imm"],
-               "lrm": ["reg", "rm"], "lmr": ["rm", "reg"], "lrmi": ["reg", "rm", "imm"], "lop": None, "larith": ["rm", "reg"], "lrot": ["rm", "imm"], "larithi8": ["rm", "imm"], "lopreg": ["opc"], "larithrm": ["reg", "rm"], "lmov": ["rm", "reg"], "lmovrm": ["reg", "rm"], "mr": ["rm", "reg"], "mri": ["rm", "reg", "imm"], "llea": ["reg", "rm"], "lrel": ["rel"], "larithimm": ["rm", "imm"], "laccimm": ["none", "imm"], "lrotx": ["rm", "none"], "lm": ["rm"], "lmovri": ["opc", "imm"], "lmovrmi": ["rm", "imm"], "lmovmi": ["rm", "imm"], "larithmi": ["rm", "imm"]}
+               "lrm": ["reg", "rm"], "lmr": ["rm", "reg"], "lrmi": ["reg", "rm", "imm"], "lop": None, "larith": ["rm", "reg"], "lrot": ["rm", "imm"], "larithi8": ["rm", "imm"], "lopreg": ["opc"], "larithrm": ["reg", "rm"], "lmov": ["rm", "reg"], "lmovrm": ["reg", "rm"], "mr": ["rm", "reg"], "mri": ["rm", "reg", "imm"], "llea": ["reg", "rm"], "lrel": ["rel"], "larithimm": ["rm", "imm"], "laccimm": ["none", "imm"], "lrotx": ["rm", "none"], "lm": ["rm"], "lmovri": ["opc", "imm"], "lmovrmi": ["rm", "imm"], "lmovmi": ["rm", "imm"], "larithmi": ["rm", "imm"], "ltestmi": ["rm", "imm"], "lmoff": ["none", "moff"], "lmoffst": ["moff", "none"], "lmovsr": ["rm", "reg"], "lmovrs": ["reg", "rm"]}
+
+
+COVER_NAMES = {}      # shape -> instruction names with an entry in that chunk (filled by class_rows_lean)
 
 
 def class_rows_lean(kept, rows, chunk=96):
@@ -404,7 +407,9 @@ def class_rows_lean(kept, rows, chunk=96):
                 continue
             if int(r[1]) == 0x2C and shape in ("lrm", "lmr") and not any(o["reg"] in ("creg", "dreg") for o in f["operands"]):
                 continue      # X86Mov: only the control / debug register moves go through the generic [reg, rm] / [rm, reg] theorems
-            if shape in ("larithmi", "lmovmi") and not f["operands"][0]["mem"]:
+            if shape == "lmovsr" and f["operands"][1]["reg"] != "sreg" or shape == "lmovrs" and f["operands"][0]["reg"] != "sreg":
+                continue
+            if shape in ("larithmi", "lmovmi", "ltestmi") and not f["operands"][0]["mem"]:
                 continue
             if shape == "lmovrmi" and f["operands"][0]["reg"] != "r64":
                 continue      # the class uses C7 /0 with a register only for `mov r64, imm32` (sign-extended)
@@ -426,7 +431,7 @@ def class_rows_lean(kept, rows, chunk=96):
             okf = True
             for o, role in zip(f["operands"] if shape != "lop" else [], roles):
                 if role == "imm":
-                    if o["imm"] != 8 and shape not in ("larithimm", "laccimm", "lmovri", "lmovrmi", "lmovmi", "larithmi"):
+                    if o["imm"] != 8 and shape not in ("larithimm", "laccimm", "lmovri", "lmovrmi", "lmovmi", "larithmi", "ltestmi"):
                         okf = False
                     continue
                 if shape in ("llea", "lm") and not o["reg"]:
@@ -435,6 +440,15 @@ def class_rows_lean(kept, rows, chunk=96):
                     continue
                 if shape == "lrotx" and role == "none":      # fixed `cl` / implied `1`: not encoded
                     continue
+                if shape in ("lmoff", "lmoffst"):
+                    if role == "moff":
+                        continue
+                    acc = {"al": "gpb", "ax": "gpw", "eax": "gpd", "rax": "gpq"}.get(o["reg"])
+                    if not acc:
+                        okf = False
+                        break
+                    kinds.append((acc,))
+                    continue
                 if shape == "laccimm":      # fixed accumulator operand, not encoded
                     acc = {"al": "gpb", "ax": "gpw", "eax": "gpd", "rax": "gpq"}.get(o["reg"])
                     if not acc or o["implicit"]:
@@ -442,7 +456,7 @@ def class_rows_lean(kept, rows, chunk=96):
                         break
                     kinds.append((acc,))
                     continue
-                if o["reg"] not in CLASS or (len(CLASS[o["reg"]]) != 1 and shape not in ("larith", "lrot", "larithi8", "larithrm", "lmov", "lmovrm", "larithimm", "lrotx", "lm", "lmovmi", "larithmi")) or o["implicit"]:
+                if o["reg"] not in CLASS or (len(CLASS[o["reg"]]) != 1 and shape not in ("larith", "lrot", "larithi8", "larithrm", "lmov", "lmovrm", "larithimm", "lrotx", "lm", "lmovmi", "larithmi", "ltestmi")) or o["implicit"]:
                     okf = False
                     break
                 kinds.append(CLASS[o["reg"]])
@@ -454,6 +468,7 @@ def class_rows_lean(kept, rows, chunk=96):
                 entries.append('  { name := "%s", enc := %d, mainOp := 0x%s#32, iflags := 0x%s#32, aflags := 0x%s#32, altOp := 0x%s#32, kinds := [%s],\n    rule := %s }' % (
                     f["name"], int(r[1]), r[2], r[4], r[5], r[3], ", ".join(KIND_LEAN[k] for k in combo), rule_lean(line)))
         counts[shape] = len(entries)
+        COVER_NAMES[shape] = set(en.split('"')[1] for en in entries)
         nch = 0
         for i in range(0, len(entries), chunk):
             out.append("def %sEntries%d : List Entry := [\n%s]\n" % (shape, nch, ",\n".join(entries[i:i + chunk])))
